@@ -100,6 +100,11 @@ impl EventSource for UnixStreamConnect {
         // an owned reference to the event data: once the coroutine is published another thread may resume it,
         // `self` (on its stack) and the socket object may be gone before this function returns
         let io_data = (**self.io_data).clone();
+        // register for cancel *before* the coroutine is published: a registration made afterwards can come late – after the
+        // coroutine was resumed, cleared its registration and entered a later wait – and then overwrites the registration
+        // of that later wait with this stale socket, so that a cancel takes the wrong slot
+        #[cfg(feature = "io_cancel")]
+        handle.get_cancel().set_io(io_data.clone());
 
         #[cfg(feature = "io_timeout")]
         crate::scheduler::get_scheduler()
@@ -115,12 +120,9 @@ impl EventSource for UnixStreamConnect {
 
         #[cfg(feature = "io_cancel")]
         {
-            // register the cancel io data
-            let cancel = handle.get_cancel();
-            cancel.set_io(io_data.clone());
-            // re-check the cancel status
-            if cancel.is_canceled() {
-                unsafe { cancel.cancel() };
+            // re-check the cancel status: wake the coroutine of *this* wait, if it is still in the slot
+            if handle.get_cancel().is_canceled() {
+                io_data.schedule();
             }
         }
     }
